@@ -39,7 +39,7 @@ def has_lb(s):
 
 
 def hostile_linebreak(case, obs=None):
-    """mirror of Spec.C14.hostile_linebreak: the input class of the open finding C14-F1"""
+    """mirror of Spec.C14.hostile_linebreak: the input class of the former finding C14-F1 (fixed by 6a4374c)"""
     for p in case['ports']:
         if 'str' in p and has_lb(p['str']):
             return True
@@ -67,7 +67,8 @@ class P(core.Prop):
             'random blobs, names, service ids, answers; random part: the same dimensions drawn at random plus '
             'malformed port mappings (no blank, two blanks, non-numeric virtual port, no colon, public address, '
             'IPv6), numeric strings in pairs, client names with blanks, answers that are errors / lack ServiceID / '
-            'lack PrivateKey / carry PrivateKey although discarding was requested / have extra lines, and the three '
+            'lack PrivateKey / carry PrivateKey although discarding was requested / have extra lines, 4 % with a line '
+            'break in a client name, token or mapping text (must be refused), and the three '
             'entry points EphemeralOnionService.create, EphemeralAuthenticatedOnionService.create, '
             'Tor.create_onion_service. non-trivial = a command was sent or a refusal was required; '
             'distinct = distinct case')
@@ -442,7 +443,7 @@ class P(core.Prop):
             if rng.random() < 0.2:
                 ports.insert(rng.randrange(len(ports) + 1), self._bad_port(rng))
             if rng.random() < 0.04:
-                # the class of the open finding C14-F1: a line break in a name, a token or a mapping text
+                # the class of the former finding C14-F1: a line break in a name, a token or a mapping text (must be refused)
                 brk = rng.choice(['\r\n', '\n', '\r']) + rng.choice(['', 'QUIT', 'x'])
                 where = rng.choice(['name', 'token', 'str', 'pair'])
                 if where in ('name', 'token') and not auth:
@@ -486,7 +487,7 @@ class P(core.Prop):
         if case['entry'] == 'tor':
             yield dict(case, entry='eph')
 
-    finding_preds = {'hostile_linebreak': hostile_linebreak}
+    finding_preds = {}     # C14-F1 (hostile_linebreak) is fixed; the predicate is still cross-checked via k_hostile
 
 
 PROP = P()
